@@ -7,7 +7,7 @@ write a replay artefact + minimal evidence, print the VIOLATION line, exit 0. Ot
 import json, os, re, sys, time
 
 pid_full, log, tier = sys.argv[1], sys.argv[2], sys.argv[3]
-pid = pid_full[:-1] if pid_full[-1] in 'SFNLW' and len(pid_full) == 4 else pid_full
+pid = pid_full[:-1] if pid_full[-1] in 'SFNLWP' and len(pid_full) == 4 else pid_full
 root = os.environ.get('VERIF_ROOT', os.path.dirname(os.path.dirname(os.path.abspath(__file__))))
 try:
     lines = open(log, errors='replace').read().splitlines()
